@@ -235,3 +235,146 @@ Fixpoint keys_nodup (es : list (Z * cinfo)) : bool :=
   end.
 Definition keys_pos (es : list (Z * cinfo)) : bool := forallb (fun e => (0 <? fst e)%Z) es.
 Definition attach_guard (es : list (Z * cinfo)) : bool := keys_pos es && keys_nodup es.
+
+(* ================================================================================================================
+   Gaps with long-bracket comments (after fix C13-long-comment-doc; Model/Comments.v, variant fx = true).
+   Reading of the statement (properties.jsonl C13): "the comment block directly above" a declaration includes a
+   long-bracket comment `--[[ text ]]` (one or several lines) that ends on the line directly above it - a long-bracket
+   comment IS Lua's block comment - and "the trailing comment on its line" is a comment (either form) on the line of the
+   declaration's IDENTIFIER, behind a token of that line. A trailing comment behind a multi-line initialiser
+   (`local s = [[a` / `b]] -- t`, `local t = {` / `} -- t`) stands on the initialiser's last line, not on the identifier's
+   line: it is NOT the declaration's documentation (statement and code agree; covered by C13_comment_attach_file already).
+   Blocks: a maximal run of `--` comments on consecutive lines is one block; a long-bracket comment is a block of its
+   own (it never joins a neighbour), whose text is the bracket's content with line breaks normalised to "\n", one
+   leading line break dropped (Lua's own rule for long brackets) and a closing "\n--" (the `--]]` style) trimmed.
+
+   A gap is read as a flat list of items: white-space bytes, LF / CRLF line breaks, `--text` comments up to the end of
+   the line, long-bracket comments. The extent, the number of line breaks and the content of a long bracket come from
+   scan_long_string of the shared lexer model (the long-string scanner validated for C03 / C04), as token extents come
+   from scan_token. Only closed brackets are items (an unclosed one ends the description: the file is outside the class). *)
+Inductive item :=
+| IWhite (c : N)
+| INl (k : nlk)
+| IShort (t : list N)
+| ILong (raw txt : list N) (nl : Z).      (* `--` raw; txt = content as scanned; nl = line breaks inside *)
+
+Definition render_item (it : item) : list N :=
+  match it with
+  | IWhite c => [c]
+  | INl k => nl_bytes k
+  | IShort t => 45 :: 45 :: t
+  | ILong raw _ _ => 45 :: 45 :: raw
+  end.
+Definition render_items (its : list item) : list N := flat_map render_item its.
+
+(* `[` `=`* `[` : the test skipComment makes before it scans a long bracket *)
+Definition is_long_open (r : list N) : bool :=
+  match r with
+  | 91 :: _ => match fst (match_long_bracket r) with [] => false | _ => true end
+  | _ => false
+  end.
+
+(* a closed long bracket at the head of l: (content, length in bytes, line breaks) *)
+Definition long_scan (l : list N) : option (list N * nat * Z) :=
+  match scan_long_string (mkLst l 0 0 0) with
+  | (str, s2, [], _) => Some (str, Z.to_nat (pos s2), line s2)
+  | _ => None
+  end.
+
+Fixpoint parse_items (fuel : nat) (l : list N) {struct fuel} : list item * list N :=
+  match fuel with
+  | O => ([], l)
+  | S f =>
+    match l with
+    | [] => ([], [])
+    | 13 :: 10 :: r => let '(its, tl) := parse_items f r in (INl NlCRLF :: its, tl)
+    | 10 :: r => if starts_with_cr r then ([], l) else let '(its, tl) := parse_items f r in (INl NlLF :: its, tl)
+    | 45 :: 45 :: r =>
+      if is_long_open r then
+        match long_scan r with
+        | Some (txt, n, nl) => let '(its, tl) := parse_items f (skipn n r) in (ILong (firstn n r) txt nl :: its, tl)
+        | None => ([], l)
+        end
+      else let '(t, r2) := span_line r in let '(its, tl) := parse_items f r2 in (IShort t :: its, tl)
+    | c :: r => if is_white c then let '(its, tl) := parse_items f r in (IWhite c :: its, tl) else ([], l)
+    end
+  end.
+
+(* one comment of a gap: form, head (not on the line the previous token ends on), text, the line it ENDS on, the column
+   of its first text byte (after a long bracket the lexer's column count restarts at 0: the C04 column finding) *)
+Record occ := mkOcc { o_short : bool; o_head : bool; o_text : list N; o_line : Z; o_col : Z }.
+
+(* p = line the previous token ends on (0: none); L, c = line and column of the next byte *)
+Fixpoint occs (p L c : Z) (its : list item) {struct its} : list occ :=
+  match its with
+  | [] => []
+  | IWhite _ :: t => occs p L (c + 1) t
+  | INl _ :: t => occs p (L + 1) 0 t
+  | IShort tx :: t => mkOcc true (negb (p =? L)%Z) tx L (c + 2) :: occs p L (c + 2 + Z.of_nat (length tx)) t
+  | ILong _ txt nl :: t => mkOcc false (negb (p =? L)%Z) (trim_suffix_nl_dashes txt) (L + nl) (c + 2) :: occs p (L + nl) 0 t
+  end.
+
+(* line and column behind the items *)
+Fixpoint items_end (L c : Z) (its : list item) {struct its} : Z * Z :=
+  match its with
+  | [] => (L, c)
+  | IWhite _ :: t => items_end L (c + 1) t
+  | INl _ :: t => items_end (L + 1) 0 t
+  | IShort tx :: t => items_end L (c + 2 + Z.of_nat (length tx)) t
+  | ILong _ _ nl :: t => items_end (L + nl) 0 t
+  end.
+
+(* the grouping rule, comment by comment (the rule of skipWhiteSpaces, Model/Comments.v comment_step_v): a trailing
+   comment is stored alone under its line; a `--` comment joins the pending block iff that block is a `--` block ending
+   on the previous line; a long-bracket comment always starts a block of its own and the next comment starts another;
+   a block is stored under its last line. *)
+Definition occ_step (cs : cstate) (o : occ) : cstate :=
+  comment_step_v true cs (o_short o) (o_head o) (o_text o) (o_line o) (o_col o).
+Definition cs_finish (cs : cstate) : list (Z * cinfo) :=
+  match cur cs with Some ci => emitted cs ++ [(last_line cs, ci)] | None => emitted cs end.
+Definition group_occs (os : list occ) : list (Z * cinfo) := cs_finish (fold_left occ_step os (mkCst None 0 [])).
+
+Definition items_entries (p L c : Z) (its : list item) : list (Z * cinfo) := group_occs (occs p L c its).
+
+(* one gap of the file *)
+Record lgaprec := mkLgr { lg_p : Z; lg_L : Z; lg_c : Z; lg_items : list item }.
+Definition lgap_entries (r : lgaprec) : list (Z * cinfo) := items_entries (lg_p r) (lg_L r) (lg_c r) (lg_items r).
+
+(* scanner state behind the items of a gap *)
+Definition after_items (s : lst) (its : list item) (tail : list N) : lst :=
+  let p' := (pos s + Z.of_nat (length (render_items its)))%Z in
+  let '(L, c) := items_end (line s) (pos s - lsp s)%Z its in
+  mkLst tail L (p' - c)%Z p'.
+
+Section FileLayoutLong.
+  Variable gbk_runes : list N -> Z.
+
+  Fixpoint file_lgaps_f (fuel : nat) (p : Z) (s : lst) {struct fuel} : option (list lgaprec) :=
+    match fuel with
+    | O => None
+    | S f =>
+      let '(its, tail) := parse_items (S (length (chunk s))) (chunk s) in
+      if tail_ok tail then
+        let r := mkLgr p (line s) (pos s - lsp s)%Z its in
+        match tail with
+        | [] => Some [r]
+        | _ => let '(t, s2, _) := scan_token gbk_runes (after_items s its tail) in
+               match file_lgaps_f f (tline t) s2 with Some rs => Some (r :: rs) | None => None end
+        end
+      else None
+    end.
+
+  Definition file_lgaps (bs : list N) : option (list lgaprec) :=
+    file_lgaps_f (S (S (length bs))) 0 (skip_first_line bs).
+
+  (* the comment blocks of the file: (key line, block) in file order *)
+  Definition file_blocks (bs : list N) : list (Z * cinfo) :=
+    match file_lgaps bs with Some rs => flat_map lgap_entries rs | None => [] end.
+End FileLayoutLong.
+
+(* the class of C13_comment_attach_long: every gap is made of the four items, no two blocks of the file are stored under
+   one line (two comments on one line, e.g. `--[[ a ]] -- b`, would be: the statement does not say which one counts),
+   and the parser reads the file to its end *)
+Definition file_class_long (gbk_runes : list N -> Z) (classify : list N -> numcls) (bs : list N) : bool :=
+  match file_lgaps gbk_runes bs with Some rs => attach_guard (flat_map lgap_entries rs) | None => false end
+  && parser_reads_all_v true gbk_runes classify bs.
